@@ -18,26 +18,30 @@ CONFIRMED ON THE REAL CODE and exhibited by the models (kernel-checked counter-e
 
   F14  a histogram whose first bound is negative (`not (upper_bounds[0] >= 0)`): the in-process `_child_samples` omits
        `_sum`, the multiprocess collector reports it (hypothesis `hF14`; `negative_first_bound_sum_differs`);
-  F25  `remove()` / `clear()`: in multiprocess mode the library only warns ("Removal of labels has not been implemented
+  F28  `remove()` / `clear()`: in multiprocess mode the library only warns ("Removal of labels has not been implemented
        in multi-process mode yet"); the entries stay in the file and a re-created child continues from them
        (hypothesis `NoRemoval`; `remove_not_propagated`, `recreated_child_continues`);
-  --   bucket layouts with numerically equal bounds (`-0.0` and `0.0`, or a repeated bound): the collector merges the
+  F29  bucket layouts with numerically equal bounds (`-0.0` and `0.0`, or a repeated bound): the collector merges the
        buckets by `float(le)`, the in-process path lists them separately (hypothesis `BoundsOK.nodup/sorted`; outside
        the collector model, whose bounds are compared by the abstract `lt`).
 A gauge label named `pid` is C08's known finding (`C08:gauge-label-named-pid`) and an excluded precondition here
 (`WFAllB.noPid`).  Metric names are pairwise different (one registry).
 
-Hypotheses that are laws of the value type (true of IEEE doubles under numeric equality; discharged for `Int` below):
-`0 + a = a` (the collector's `defaultdict(float)` `+=`), `not (0 < 0)`, the clock is positive (`time.time()`).
+"Same values" in C12 is NUMERIC equality (Python `==`, with NaN = NaN), not identity of bit patterns.  The theorems
+are stated with Lean's `=` over an abstract value type `V` and take as hypothesis the law `hz : 0 + a = a` (the collector's
+`samples[k] += value` on a `defaultdict(float)`).  For `V := Int` (examples below) the law holds literally.  For the
+driver's `V := Float` it holds ONLY UP TO THE SIGN OF ZERO: `0.0 + -0.0` is `0.0`, numerically equal to `-0.0` but a
+different bit pattern — so at doubles the theorem is to be read modulo the sign of a zero value, and that reading is
+sharp: on the real code `Gauge(multiprocess_mode='livesum').set(-0.0)` (or a counter / summary / histogram `_sum` cell
+that only ever received `-0.0`) collects `-0.0` in-process and `0.0` through the collector.  The harness compares
+numerically and COUNTS these sign-of-zero differences (evidence `documented_limits.signed-zero-sum`).
+The other laws: `not (0 < 0)`, the clock is positive (`time.time()`); all discharged for `Int` below.
 What is needed from C13 is `BoundsOK`: every rendered bound reads back (`float(le text)`) as a bound that renders to
 the same text — `floatToGoString` is a fixpoint on rendered bounds; `float`/`repr` are CPython's (trusted), so this
 is a hypothesis, validated by the harness on every bound of every generated layout.
 -/
 import PromVerif.Lemmas.BackendsCompose
 import PromVerif.Props.C01
-import PromVerif.Props.C08
-import PromVerif.Props.C09
-import PromVerif.Props.C13
 
 namespace PromVerif.Props.C12
 open PromVerif.Py PromVerif.Generated.Multiprocess
@@ -85,11 +89,12 @@ theorem one_interface (d : MDecl V) (hs : Supported d) (t : V) (act : Action V) 
 
 /-
 FULL STATEMENT: for every history.  MISSING PART: histories containing `remove()` / `clear()` — in multiprocess mode
-these do not reach the files (finding F25), after which a re-created child's cells differ (`recreated_child_continues`).
+these do not reach the files (finding F28), after which a re-created child's cells differ (`recreated_child_continues`).
 -/
 /-- **Cells agree**: after any history without remove/clear, for every live child and every cell of it, the entry in
 the process's file holds the in-memory (`MutexValue`) value of that cell, and the cached value of EVERY `MmapedValue`
-constructed for that cell is what the file holds (C09 `caches_coherent_partial`) — one value, three views. -/
+constructed for that cell is what the file holds (C09's coherence invariant `Values.Inv.cached`, the one behind
+`caches_coherent_partial`) — one value, three views. -/
 theorem cells_agree_partial (ds : List (MDecl V)) (hwf : WFAll ds) (pid : Str) (clock : Nat → V)
     (hclk : ∀ n, (voOf V).truthy (clock n) = true ∧ Val.lt (Val.zero : V) (clock n) = true)
     (h : List (Model.Metrics.Op V)) (hnr : NoRemoval h) (i : Nat) (d : MDecl V) (hist : Spec.Metrics.Hist V)
@@ -103,8 +108,10 @@ theorem cells_agree_partial (ds : List (MDecl V)) (hwf : WFAll ds) (pid : Str) (
   have h1 := hc.cells i d hist hd hh ka hka pos p v hp hv
   refine ⟨h1, ?_⟩
   intro o ho hop
-  -- C09: the cache of every live value object is what its file holds
-  have hcoh := PromVerif.Props.C09.caches_coherent_partial (voOf V) pid (compile ds clock h) hc.vinv.inv.uniq o ho
+  -- C09's coherence invariant: the cache of the youngest value object on a key is what its file holds; here every
+  -- object is the youngest on its key (one object per cell)
+  obtain ⟨j, hj⟩ := List.mem_iff_getElem?.mp ho
+  have hcoh := hc.vinv.inv.cached j o hj (isLast_of_nodup _ hc.vinv.uniq j)
   have hb := hc.vinv.inv.bound.bound o ho
   have hpid : (runMmap ds pid clock h).pid = pid := hc.vinv.hpid
   have : Model.Values.cellVal (voOf V) (runMmap ds pid clock h).disk o.file o.key = (o.value, o.ts) := hcoh
@@ -168,13 +175,14 @@ FULL STATEMENT (does not hold of the code):
   theorem backends_equivalent : for EVERY history h,
     normalise (mpCollect (runMmap ds pid clock h)) = normalise (collect (runMutex ds h))   as finite maps.
 MISSING PART, exactly: (a) `hF14` — no histogram whose first bound is negative (finding F14: the multiprocess path
-exposes `_sum`, the in-process path does not); (b) `hnr` — no `remove()` / `clear()` in the history (finding F25: not
+exposes `_sum`, the in-process path does not); (b) `hnr` — no `remove()` / `clear()` in the history (finding F28: not
 implemented in multiprocess mode); (c) the bounds of a histogram read back strictly increasing (`BoundsOK` in `hwf`):
 numerically equal bounds (`-0.0`/`0.0`, repeats) are merged by the collector.  Equality is stated as equality of the
 SETS of `((sample name, sorted labels), value)` pairs; that the in-process side is a finite map (no key twice) needs in
 addition that no two metrics claim one sample name (C06) and is not restated here.
 -/
-/-- **In-memory and file-backed value stores are observationally equivalent.**  For every single-process history without
+/-- **In-memory and file-backed value stores are observationally equivalent** (values up to `hz`: at doubles, numeric
+equality — see the file header on the sign of zero).  For every single-process history without
 remove/clear over counters, gauges (every multiprocess mode), summaries and histograms (no negative first bound) — any
 length, any label sets, any bucket layouts — collecting through the multiprocess collector SUCCEEDS and yields, after
 `normalise` (`_created`, `pid` on all/liveall gauges, order, never-set mostrecent gauges), exactly the series and values
@@ -201,6 +209,36 @@ theorem backends_equivalent_partial (bo : BOps B) (ds : List (MDecl V)) (bsOf : 
   intro kv
   rw [inmemory_is_replay ds h]
   exact h2 kv
+
+/-
+`normalise` compares `((sample name, sorted labels), value)` pairs only.  What it drops is covered separately:
+family name, type and help text by `families_agree_partial` below (the in-process family of a metric carries the
+declaration's name, type and help by construction of `MetricWrapperBase.describe/collect`, which C01's model does not
+represent: the harness compares the two REAL collections' `(name, type, documentation)`); multiplicity is not compared
+(an in-process histogram with a repeated bound lists one series twice, with equal values).
+MISSING PART: histories with `remove()` / `clear()` (F28).
+-/
+/-- **Family metadata agree.**  After any history without remove/clear the collector reports each family ONCE, under
+the name of a declared metric, with that metric's type and help text (C08 `accumulate_eq_spec_partial`: first help
+wins — here all value objects of a metric carry the same help), and it reports every declared metric that has a child
+(an unlabelled metric always has one; a labelled parent without children is reported by neither collection's samples). -/
+theorem families_agree_partial (bo : BOps B) (ds : List (MDecl V)) (bsOf : MDecl V → List B) (hwf : WFAllB bo ds bsOf)
+    (pid : Str) (hpid : '_' ∉ pid) (clock : Nat → V)
+    (hclk : ∀ n, (voOf V).truthy (clock n) = true ∧ Val.lt (Val.zero : V) (clock n) = true)
+    (h : List (Model.Metrics.Op V)) (hnr : NoRemoval h) :
+    ∃ out, mpCollect bo (runMmap ds pid clock h) = .ok out ∧ (out.map (·.name)).Nodup ∧
+      (∀ om ∈ out, ∃ d ∈ ds, om.name = d.decl.name ∧ om.typ = typStr d.decl.kind ∧ om.doc = d.help) ∧
+      (∀ (i : Nat) (d : MDecl V) (hist : Spec.Metrics.Hist V), ds[i]? = some d →
+        (Spec.Metrics.history (ds.map (·.decl)) (Model.Metrics.accepted (regFresh ds) (h.map (front ds))))[i]? = some hist →
+        childList d hist ≠ [] → ∃ om ∈ out, om.name = d.decl.name) := by
+  obtain ⟨ps', hc⟩ := runMmap_core ds hwf.toWFAll pid clock hclk h hnr
+  have habs := Lemmas.Metrics.run_fresh_abs (ds.map (·.decl)) (h.map (front ds))
+  have hlen : (Spec.Metrics.history (ds.map (·.decl))
+      (Model.Metrics.accepted (regFresh ds) (h.map (front ds)))).length = ds.length := by
+    have := forall2_length _ _ _ habs.ok
+    rw [List.length_map] at this
+    exact this
+  exact families_meta bo ds bsOf hwf pid hpid _ ps' _ hc hlen
 
 end PromVerif.Props.C12
 
@@ -332,13 +370,13 @@ theorem negative_first_bound_sum_differs :
   have : ∀ kv ∈ (bothSides boNeg [hneg] [.call 0 .none (.observe 1)]).1, kv.1.1 ≠ "h_sum".toList := by decide
   exact this _ hv rfl
 
-/-! ### F25: remove() / clear() do not reach the files -/
+/-! ### F28: remove() / clear() do not reach the files -/
 
 def cnt : MDecl Int := ⟨⟨"c".toList, .counter, ["l".toList]⟩, "doc".toList, []⟩
 
 set_option maxRecDepth 100000 in
 set_option synthInstance.maxSize 2000 in
-/-- **F25 in the models**: `c.labels('a').inc(2); c.remove('a')`: the in-memory collection is empty, the file-backed one
+/-- **F28 in the models**: `c.labels('a').inc(2); c.remove('a')`: the in-memory collection is empty, the file-backed one
 still reports `c_total{l="a"} 2` -/
 theorem remove_not_propagated :
     bothSides bo3 [cnt] [.call 0 (.labels [.str "a".toList] []) (.inc 2), .remove 0 [.str "a".toList]]
